@@ -7,6 +7,8 @@ import (
 	"errors"
 	"runtime"
 	"sort"
+	"strconv"
+	"strings"
 	"time"
 
 	"github.com/gotid/god/lib/mathx"
@@ -22,7 +24,11 @@ func (s *verifSrc) Int63() int64 { return s.next }
 func (s *verifSrc) Seed(int64)   {}
 
 type verifCacheCall struct {
-	Op     string `json:"op"` // set | setx | get | del | take | tick
+	// set | setx | get | del | take | tick, and bulks observed only at their end:
+	// fill (Set of keys k<from> .. k<from+n-1>) | churn (Set then Del of each of them: n timer removals)
+	Op     string `json:"op"`
+	From   int    `json:"from"`
+	N      int    `json:"n"`
 	Key    string `json:"key"`
 	Val    int    `json:"val"`
 	Expire int64  `json:"expire"` // setx: nanoseconds
@@ -35,6 +41,7 @@ type verifCacheCase struct {
 	Limit    int              `json:"limit"`
 	Phase    int              `json:"phase"`    // ticks delivered to the wheel before the first call
 	Interval int64            `json:"interval"` // wheel interval in nanoseconds (0: one second, as NewCache)
+	Hide     int              `json:"hide"`     // > 0: keys/timers list only the keys k<n> with n < hide; nkeys/ntimers count all
 	Calls    []verifCacheCall `json:"calls"`
 }
 
@@ -46,6 +53,8 @@ type verifCacheObs struct {
 	Jit     int64    `json:"jit"`     // the jittered duration AroundDuration yields for this call's draw
 	Keys    []string `json:"keys"`    // sorted keys of the data map after the call has settled
 	Timers  []string `json:"timers"`  // sorted keys of the case that have a pending timer in the wheel
+	NKeys   int      `json:"nkeys"`   // size of the data map
+	NTimers int      `json:"ntimers"` // size of the wheel's timer index
 }
 
 func verifCache(raw json.RawMessage) any {
@@ -101,12 +110,28 @@ func verifCache(raw json.RawMessage) any {
 		if call.Key != "" {
 			names[call.Key] = true
 		}
+		if call.Op == "fill" {
+			for i := 0; i < call.N; i++ {
+				names["k"+strconv.Itoa(call.From+i)] = true
+			}
+		}
 	}
+	listed := func(k string) bool {
+		if c.Hide <= 0 {
+			return true
+		}
+		n, err := strconv.Atoi(strings.TrimPrefix(k, "k"))
+		return err != nil || n < c.Hide
+	}
+	nkeys := 0
 	keys := func() []string {
 		cache.lock.Lock()
-		out := make([]string, 0, len(cache.data))
+		out := make([]string, 0, 16)
+		nkeys = len(cache.data)
 		for k := range cache.data {
-			out = append(out, k)
+			if listed(k) {
+				out = append(out, k)
+			}
 		}
 		cache.lock.Unlock()
 		sort.Strings(out)
@@ -115,6 +140,9 @@ func verifCache(raw json.RawMessage) any {
 	timers := func() []string { // the wheel's index (SafeMap, safe to read): keys with a pending timer
 		out := []string{}
 		for k := range names {
+			if !listed(k) {
+				continue
+			}
 			if _, ok := wheel.timers.Get(k); ok {
 				out = append(out, k)
 			}
@@ -161,6 +189,19 @@ func verifCache(raw json.RawMessage) any {
 				o.Err = err != nil
 				o.Found, o.Val = err == nil, asInt(v)
 			})
+		case "fill", "churn":
+			o.Jit = int64(probe.AroundDuration(time.Duration(c.Expire)))
+			gd.run(call.Op+" blocked", func() {
+				for i := 0; i < call.N; i++ {
+					if call.Op == "churn" { // n timer removals over a cycle of 16 keys
+						k := "k" + strconv.Itoa(call.From+i%16)
+						cache.Set(k, call.Val)
+						cache.Del(k)
+					} else {
+						cache.Set("k"+strconv.Itoa(call.From+i), call.Val)
+					}
+				}
+			})
 		case "tick":
 			tick()
 		}
@@ -170,7 +211,9 @@ func verifCache(raw json.RawMessage) any {
 			break
 		}
 		o.Keys = keys()
+		o.NKeys = nkeys
 		o.Timers = timers()
+		o.NTimers = wheel.timers.Size()
 		obs = append(obs, o)
 	}
 	hung := gd.hung
